@@ -849,6 +849,13 @@ pub fn timeout(rng: &mut Rng) -> Program {
         a.fail_on_timeout = g.rng.chance(1, 3);
     }
     a.cfg_order = g.rng.below(4) as u8;
+    // lifecycle callbacks are not subject to the handler timeout, however long they take
+    if g.rng.chance(1, 4) {
+        a.stopped = vec![SStep::Sleep(*g.rng.pick(&[1u64, 3, 9]))];
+    }
+    if g.rng.chance(1, 6) {
+        a.started = vec![SStep::Sleep(*g.rng.pick(&[1u64, 3, 9]))];
+    }
     a.strategy = *g.rng.pick(&[Strategy::RestartOnly, Strategy::Recreate, Strategy::NonRestartable]);
     g.prog.actors.push(a);
     g.layout(nclients);
